@@ -19,9 +19,10 @@ import (
 
 // Val is a non-NULL scalar of one of the two column types.
 type Val struct {
-	Str bool
-	I   int
-	S   string
+	Str  bool
+	I    int
+	S    string
+	Null bool // only as an element of an IN list: SQL NULL
 }
 
 func IntV(i int) Val    { return Val{I: i} }
@@ -29,6 +30,9 @@ func StrV(s string) Val { return Val{Str: true, S: s} }
 
 // Go returns the value as the Go value handed to gorm.
 func (v Val) Go() interface{} {
+	if v.Null {
+		return nil
+	}
 	if v.Str {
 		return v.S
 	}
@@ -37,6 +41,9 @@ func (v Val) Go() interface{} {
 
 // Lit is the SQL literal of the value (strings never contain quotes).
 func (v Val) Lit() string {
+	if v.Null {
+		return "NULL"
+	}
 	if v.Str {
 		return "'" + v.S + "'"
 	}
@@ -44,6 +51,9 @@ func (v Val) Lit() string {
 }
 
 func (v Val) String() string {
+	if v.Null {
+		return "NULL"
+	}
 	if v.Str {
 		return strconv.Quote(v.S)
 	}
@@ -74,7 +84,9 @@ type Row struct {
 	// the keywords OR / AND (the builder scans raw conditions for those keywords)
 	Cor  int
 	Band string
-	FK   int // foreign key of a related table's row (pseudo column "fk"), 0 = none
+	// Del: the row is soft-deleted (pseudo column SoftCol: NULL for live rows)
+	Del bool
+	FK  int // foreign key of a related table's row (pseudo column "fk"), 0 = none
 }
 
 // Col returns the value of the named column and whether it is NULL.
@@ -84,6 +96,8 @@ func (r Row) Col(name string) (Val, bool) {
 		return IntV(r.ID), false
 	case "fk":
 		return IntV(r.FK), false
+	case SoftCol:
+		return StrV("deleted"), !r.Del
 	case "ca":
 		return IntV(r.Ca), false
 	case "cb":
@@ -117,6 +131,26 @@ func (r Row) String() string {
 		ct = strconv.Quote(*r.Ct)
 	}
 	return fmt.Sprintf("{id:%d ca:%d cb:%d cs:%q cn:%s ct:%s cor:%d band:%q}", r.ID, r.Ca, r.Cb, r.Cs, cn, ct, r.Cor, r.Band)
+}
+
+// SoftCol is the name the soft-delete column has in condition trees, whatever its
+// real name (Cfg.SoftCol); only IS [NOT] NULL is generated on it.
+const SoftCol = "<deleted_at>"
+
+// Mentions reports whether an atom on the column occurs in the tree.
+func (n *Node) Mentions(col string) bool {
+	if n == nil {
+		return false
+	}
+	if n.Kind == KAtom {
+		return n.Col == col
+	}
+	for _, k := range n.Kids {
+		if k.Mentions(col) {
+			return true
+		}
+	}
+	return false
 }
 
 // IsText reports whether the column holds text.
@@ -263,12 +297,17 @@ func (n *Node) Eval(r Row) TV {
 		if len(n.Vs) == 0 {
 			return U
 		}
+		res := F
 		for _, x := range n.Vs {
+			if x.Null {
+				res = U // x IN (..., NULL) is never FALSE
+				continue
+			}
 			if cmp(v, x) == 0 {
 				return T
 			}
 		}
-		return F
+		return res
 	case OpLike:
 		return tv(Like(v.S, n.V.S))
 	}
@@ -277,22 +316,25 @@ func (n *Node) Eval(r Row) TV {
 
 // Like matches s against an SQL LIKE pattern (% and _, no escape). The
 // generated alphabet is lower-case ASCII, so SQLite's case folding is moot.
-func Like(s, pat string) bool {
-	if pat == "" {
-		return s == ""
+func Like(s, pat string) bool { return likeRunes([]rune(s), []rune(pat)) }
+
+// (SQLite's % and _ work on characters, not bytes; only ASCII letters fold case)
+func likeRunes(s, pat []rune) bool {
+	if len(pat) == 0 {
+		return len(s) == 0
 	}
 	switch pat[0] {
 	case '%':
 		for i := 0; i <= len(s); i++ {
-			if Like(s[i:], pat[1:]) {
+			if likeRunes(s[i:], pat[1:]) {
 				return true
 			}
 		}
 		return false
 	case '_':
-		return s != "" && Like(s[1:], pat[1:])
+		return len(s) != 0 && likeRunes(s[1:], pat[1:])
 	}
-	return s != "" && s[0] == pat[0] && Like(s[1:], pat[1:])
+	return len(s) != 0 && s[0] == pat[0] && likeRunes(s[1:], pat[1:])
 }
 
 // String is a canonical fully parenthesised rendering (used in descriptors).
